@@ -160,8 +160,27 @@ func runQuietFleet(q quietFleet, env *runner.Env, res *runner.Result) {
 		loops = append(loops, l)
 		defer l.Stop(5 * time.Second)
 	}
+	emptyDBIs := 0
 	for w := 0; w < q.Writes; w++ {
 		x := insts[r.Intn(len(insts))]
+		if !q.DupSort && emptyDBIs < 3 && r.Chance(1, 5) {
+			// the application creates a DBI and leaves it empty: it travels in the next snapshot, the receivers
+			// create it - and have nothing to answer
+			emptyDBIs++
+			name := fmt.Sprintf("empty-%d", emptyDBIs)
+			s.Note(x.Name, "APP BEGIN create "+name)
+			_, _ = lmdbx.Update(x.Env, func(txn *lmdb.Txn) error {
+				_, err := txn.OpenDBI(name, lmdb.Create)
+				return err
+			})
+			s.Note(x.Name, "APP COMMIT create "+name)
+			res.Count("empty_dbis_created_by_application", 1)
+			// let this change travel alone now and then
+			if r.Bool() {
+				time.Sleep(8 * time.Millisecond)
+			}
+			continue
+		}
 		loopp.AppPut(x, s, fmt.Sprintf("k%d", r.Intn(5)), fmt.Sprintf("w%d-%s", w, x.Name))
 		time.Sleep(time.Duration(r.Intn(2000)) * time.Microsecond)
 	}
@@ -200,6 +219,23 @@ func runQuietFleet(q quietFleet, env *runner.Env, res *runner.Result) {
 		res.NonTrivial = true
 		return
 	}
+	if !q.DupSort {
+		// the whole fleet is idle: one application creates an empty DBI. Its instance uploads once; everybody else
+		// creates the DBI while merging that snapshot and must stay silent.
+		x := insts[0]
+		s.Note(x.Name, "APP BEGIN create empty-last")
+		_, _ = lmdbx.Update(x.Env, func(txn *lmdb.Txn) error {
+			_, err := txn.OpenDBI("empty-last", lmdb.Create)
+			return err
+		})
+		s.Note(x.Name, "APP COMMIT create empty-last")
+		res.Count("empty_dbis_created_by_application", 1)
+		for round := 0; round < 3; round++ {
+			for _, l := range loops {
+				l.WaitQuiescent(nil, 5, wd)
+			}
+		}
+	}
 	idleIdx := s.Len()
 	storesAtIdle := b.SuccessfulCount("Store")
 	// 20 further loop iterations of every instance
@@ -230,8 +266,8 @@ func runQuietFleet(q quietFleet, env *runner.Env, res *runner.Result) {
 				after++
 			}
 		}
-		if after > 2 {
-			res.Violate("uploads-after-writers-stopped", fmt.Sprintf("instance %s uploaded %d snapshots after the last application commit (at most 2 are explained)", x.Name, after), wit)
+		if after > 3 {
+			res.Violate("uploads-after-writers-stopped", fmt.Sprintf("instance %s uploaded %d snapshots after the writers stopped (at most 3 are explained)", x.Name, after), wit)
 		}
 		res.Add("uploads_after_stop_per_instance", fmt.Sprint(after))
 		loopp.CheckCausalityOf(evs, x.Name, res, wit)
